@@ -395,6 +395,15 @@ impl Server {
 			cmd.args(args);
 			cmd.env("RUST_BACKTRACE", "0").env("RUST_LIB_BACKTRACE", "0");
 			cmd.stdin(Stdio::null()).stdout(Stdio::null()).stderr(Stdio::from(log_file));
+			// the server must not outlive the check process, however that ends (verdict printed and
+			// `_exit`, watchdog, a kill from outside): the kernel sends it SIGKILL when its parent dies
+			unsafe {
+				use std::os::unix::process::CommandExt;
+				cmd.pre_exec(|| {
+					libc::prctl(libc::PR_SET_PDEATHSIG, libc::SIGKILL);
+					Ok(())
+				});
+			}
 			let child = match cmd.spawn() {
 				Ok(c) => c,
 				Err(e) => die(&format!("cannot spawn {bin:?}: {e}")),
